@@ -127,6 +127,7 @@ impl Property for C16 {
             f.noreturn = false;
         }
         lib.globals.clear();
+        lib.garrays.clear();
         if !case.keep_known {
             for k in 0..lib.funcs.len() {
                 // known findings, excluded by construction and counted:
@@ -136,6 +137,11 @@ impl Property for C16 {
                 out.excluded_known += n0 - lib.funcs[k].params.len();
                 if lib.funcs[k].variadic.is_some() && lib.funcs[k].params.is_empty() {
                     lib.funcs[k].params.push(PTy::Sc(c04::Sc::Int));
+                }
+                // (a') the same declarator problem for a function that returns a function pointer
+                if lib.funcs[k].ret == RTy::FnPtr {
+                    lib.funcs[k].ret = RTy::Sc(c04::Sc::Int);
+                    out.excluded_known += 1;
                 }
                 // (c) the wrapper of a function with its own calling convention has the default one,
                 //     while the binding keeps the function's
@@ -169,7 +175,7 @@ impl Property for C16 {
         let single = format!("#include \"{h_types}\"\n{fns}");
         std::fs::write(dir.join(&h_fns), if case.mode == HeaderMode::TwoHeaders { fns.clone() } else { single.clone() }).ok();
         // the library object only holds the globals (functions are static in the header)
-        let globals_c = format!("unsigned long long g_digest[{}];\nint g_static_int = 77;\n", lib.funcs.len().max(1));
+        let globals_c = format!("unsigned long long g_digest[{}];\nint g_static_int = 77;\nint lib_cb_odd(int a, double b) {{ return a * 5 + (int)b; }}\nint lib_cb_even(int a, double b) {{ return a * 7 - (int)b; }}\n", lib.funcs.len().max(1));
         std::fs::write(dir.join("globals.c"), &globals_c).ok();
         match tools::clang_compile(dir, "globals.c", "globals.o", &["-c".into(), "-w".into()]) {
             Ok(o) if o.ok() => {}
